@@ -88,9 +88,11 @@ def one(case):
         f = features(case)
         f["route"] = route(case, K.id_strategies(case["event"])[0])
         f["frag1"] = bool(r["in_fragment"])
+        f["fragment"] = ("1" if r["in_fragment"] else "2" if r["in_fragment2_strict"] else "2R" if r["in_fragment2"] else
+                         "single-world-outside" if r["one_world"] else "multi-world")
         key = None
         if r["fail"]:
-            key = P._coarse_key(case, dict(r, in_fragment=False))
+            key = P._coarse_key(case, dict(r, in_fragment=False, in_fragment2=False))
         first = r["by_order"][0]
         f["answer"] = "unid" if first == ["unidentifiable"] else "err" if first == ["err"] else \
             ("zero" if first[1] == "zero" else "one" if first[1] == "one" else "estimand")
